@@ -114,6 +114,12 @@ def generate(seed: int, tier: str, phase: str) -> Dict[str, Any]:
         if f[2] == "stochastic" and r.random() < 0.5:
             pre.append(f[:2] + ["stochastic", r.choice([x for x in (0, 1, 2, 4, 6) if x != f[3]])])
     plan["pre_formats"] = pre
+    if phase == "dynamo" and r.random() < 0.2:
+        # the format simulation applied on top of unit_scale(): the reference is the recipe
+        # conversion with hand-inserted quantisation (shapes of C16's recorded findings and
+        # already unit-scaled ops are kept out of these programs)
+        plan["pre_unit_scale"] = True
+        plan["opts"]["avoid"] = plan["opts"]["avoid"] + ["nn_softmax", "u_forms"]
     if phase == "known":
         if r.random() < 0.5:
             plan["ops"] = [{"op": "nn_root", "kind": r.choice(["linear", "sequential"])}]
@@ -289,8 +295,17 @@ def _programs(plan: Dict[str, Any], res: Dict[str, Any], log: Any, prf: Any, pro
     states.append(f"{_fmtkey(fwd)}|{_fmtkey(bwd)}|nq={min(nq, 6)}|{plan['phase']}")
     progsig = "/".join(_opseq(spec))
     res["opseq"].append(f"{_fmtkey(fwd)}>{_fmtkey(bwd)}:{progsig}")
-    ref = programs.Reference(spec, q=(fwd, bwd))
-    plain = programs.Reference(spec)
+    pre_us = bool(plan.get("pre_unit_scale")) and plan["phase"] == "dynamo"
+    if pre_us:
+        import unit_scaling.transforms as T0
+
+        try:
+            original = T0.unit_scale(original)
+        except Exception as e:
+            raise Violation("transform_succeeds", "unit_scale_raised", f"{type(e).__name__}: {str(e)[:300]}")
+        probe("on_top_of_unit_scale")
+    ref = programs.Reference(spec, us=pre_us, q=(fwd, bwd))
+    plain = programs.Reference(spec, us=pre_us)
     snap0 = tw.state_snapshot(original)
 
     def transform(mod: Any, f: List[Any], b: List[Any], fp8: bool) -> Any:
@@ -433,7 +448,7 @@ def _programs(plan: Dict[str, Any], res: Dict[str, Any], log: Any, prf: Any, pro
                     f_ = [4, 3, "nearest", 0]
                 fm_ = transform(original, f_, b_, False)
                 compare(fm_, fm_, j % 3, 0, True, where + f" fleet member {j} {_fmtkey(f_)}>{_fmtkey(b_)}", {},
-                        programs.Reference(spec, q=(f_, b_)), inputs, False, plain, progsig)
+                        programs.Reference(spec, us=pre_us, q=(f_, b_)), inputs, False, plain, progsig)
             probe("fleet_members", op["n"])
         elif not mods:
             continue
